@@ -79,13 +79,27 @@ fn seeds(c: &Value) -> Value {
 }
 
 fn init_ops(c: &Value) -> Value {
+    use mini_mcmc::core::{init, init_det};
+    use rand_distr::{Distribution, StandardNormal};
     let (n, d, seed) = (us(c, "n"), us(c, "d"), u64f(c, "seed"));
     let a: Vec<Vec<f64>> = init_with_seed(n, d, seed);
     let b: Vec<Vec<f64>> = init_with_seed(n, d, seed);
     let a32: Vec<Vec<f32>> = init_with_seed(n, d, seed);
-    json!({"same64": a == b, "rows": a.len(),
+    // the harness's own replay of the generator: the n*d standard-normal draws, in order
+    let mut r = SmallRng::seed_from_u64(seed);
+    let draws: Vec<u64> = (0..n * d).map(|_| { let x: f64 = StandardNormal.sample(&mut r); x.to_bits() }).collect();
+    let det: Vec<Vec<f64>> = init_det(n, d);
+    let det42: Vec<Vec<f64>> = init_with_seed(n, d, 42);
+    let un: Vec<Vec<f64>> = init(n, d);
+    let un32: Vec<Vec<f32>> = init(n, d);
+    json!({"same64": a == b, "rows64": a.iter().map(|r| r.len()).collect::<Vec<_>>(),
+           "rows32": a32.iter().map(|r| r.len()).collect::<Vec<_>>(),
            "f64": a.iter().flatten().map(|x| x.to_bits()).collect::<Vec<u64>>(),
-           "f32": a32.iter().flatten().map(|x| x.to_bits() as u64).collect::<Vec<u64>>()})
+           "f32": a32.iter().flatten().map(|x| x.to_bits() as u64).collect::<Vec<u64>>(),
+           "draws": draws, "det_is_42": det == det42,
+           "unseeded_rows": un.iter().map(|r| r.len()).collect::<Vec<_>>(),
+           "unseeded_finite": un.iter().flatten().all(|x| x.is_finite()) && un32.iter().flatten().all(|x| x.is_finite()),
+           "unseeded_rows32": un32.len()})
 }
 
 pub fn run(c: &Value) -> Value {
